@@ -3,7 +3,13 @@ from __future__ import annotations
 from typing import Optional, NamedTuple, Tuple, TYPE_CHECKING
 
 from nrel.hive.util.h3_ops import H3Ops
-from nrel.hive.util.units import Seconds, Kilometers, Kmph, hours_to_seconds
+from nrel.hive.util.units import (
+    Seconds,
+    Kilometers,
+    Kmph,
+    hours_to_seconds,
+    SECONDS_TO_HOURS,
+)
 
 if TYPE_CHECKING:
     from nrel.hive.util.typealiases import LinkId, GeoId
@@ -140,12 +146,25 @@ def traverse_up_to(
             # find the point in this link to split into two sub-links
             mid_geoid = H3Ops.point_along_link(link, available_time_seconds)
 
-            # create two sub-links, one for the part that was traversed, and one for the remaining part
+            # create two sub-links, one for the part that was traversed, and one for the remaining part.
+            # the two parts share the link's own length (which is generally not its straight-line length)
+            # according to the distance driven in the available time
+            traversed_km = min(
+                link.distance_km, (available_time_seconds * SECONDS_TO_HOURS) * link.speed_kmph
+            )
             traversed = LinkTraversal.build(
-                link.link_id, link.start, mid_geoid, speed_kmph=link.speed_kmph
+                link.link_id,
+                link.start,
+                mid_geoid,
+                speed_kmph=link.speed_kmph,
+                distance_km=traversed_km,
             )
             remaining = LinkTraversal.build(
-                link.link_id, mid_geoid, link.end, speed_kmph=link.speed_kmph
+                link.link_id,
+                mid_geoid,
+                link.end,
+                speed_kmph=link.speed_kmph,
+                distance_km=link.distance_km - traversed_km,
             )
 
             result = LinkTraversalResult(
